@@ -25,9 +25,16 @@ def render_skeleton(prog, nconds):
         elif op in ("and", "or"):
             text.append("let b%d = c%d %s ({" % (n, c, "&&" if op == "and" else "||"))
             stack.append(op)
+        elif op == "match":
+            text.append("match (c1, c2) { (true, _) => {")
+            stack.append("match1")
+        elif op == "arm":
+            k = stack.pop()
+            text.append("}, (false, true) => {" if k == "match1" else "}, _ => {")
+            stack.append("match2" if k == "match1" else "match3")
         else:
             k = stack.pop()
-            text.append("}" if k == "if" else ("true });" if k == "and" else "false });"))
+            text.append("}" if k == "if" else ("} }" if k.startswith("match") else ("true });" if k == "and" else "false });")))
     params = ", ".join("c%d: bool" % i for i in range(1, nconds + 1))
     return "pub fn main(%s, arr: [u8; 1], v: u8) -> u8 { %s v }" % (params, " ".join(text))
 
